@@ -254,6 +254,8 @@ def shaped(shape):
         if s == '*':
             out.append(Tag(None))
             out.append(Tag(None))
+        elif isinstance(s, tuple) and s and s[0] == '*':       # *(a, b): exactly as many items as the starred sequence has
+            out.extend(shaped(x) for x in s[1:])
         else:
             out.append(shaped(s))
     return tuple(out)
@@ -284,6 +286,8 @@ def shape_of(t):
     if isinstance(t, (ast.Tuple, ast.List)):
         return tuple(shape_of(e) for e in t.elts)
     if isinstance(t, ast.Starred):
+        if isinstance(t.value, (ast.Tuple, ast.List)):
+            return ('*',) + tuple(shape_of(e) for e in t.value.elts)
         return '*'
     return None
 
